@@ -136,6 +136,28 @@ def entry(path):
     return DEFAULT
 
 
+def variant_kwargs(path, cls, rng, base):
+    """a second admissible parameter set for the same class, different from `base`: one
+    float-valued defaulted parameter moved by a few per cent (special cases below)"""
+    name = path.split(':')[1]
+    kw = dict(base)
+    if name == 'Blake':
+        kw.update(lame_mod=2.0e10, shear_mod=1.6e10)
+        return kw
+    if 'NohBlackBox' in name or name in ('IGEOS_Solver', 'GenEOS_Solver') and 'riemann2D' in path:
+        return None
+    if name == 'IGEOS_Solver':
+        kw.update(pl=1.2, rl=0.9)
+        return kw
+    cands = [p for p in cls.parameters if isinstance(getattr(cls, p, None), float) and p not in kw
+             and p not in ('xmax', 'tmax', 'int_tol', 'eps_precursor_equil')]
+    if not cands:
+        return None
+    p = rng.choice(sorted(cands))
+    kw[p] = getattr(cls, p) * (1.0 + rng.choice([-1, 1]) * rng.uniform(0.02, 0.05))
+    return kw
+
+
 def build(path, cls, rng):
     """(solver, kwargs) for one catalogue construction"""
     e = entry(path)
